@@ -446,16 +446,16 @@ Section FLh.
       exists x0, x. split; [reflexivity|]. split; [|reflexivity]. intros ty1. rewrite cmp_unfold. exact E0.
   Qed.
 
-  Lemma fl_dtor : forall N scrut x targs args ty,
+  Lemma fl_dtor_atomic : forall N scrut x targs args ty, scrut_atomic scrut = true ->
     flt p cp N scrut -> Forall (flc p cp N) args -> Forall (flt p cp N) args ->
     flw p cp N (FDtor scrut x targs args ty).
   Proof.
-    intros N scrut x targs args ty HTs HA HT.
+    intros N scrut x targs args ty Hat0 HTs HA HT.
     intros n Hn G cur cont st s st' e ce k Hwc Hf Hkd Hws Hnc Hl HG Hbn Hni H8 Hsh He HCK.
     rewrite wc_unfold in Hwc. apply wc_dtor_inv in Hwc.
     destruct Hwc as [args' [st1 [sty0 [Hargs [Esty Hwscrut]]]]].
     simpl in Hf, Hkd, Hws, Hnc.
-    apply andb_prop in Hf. destruct Hf as [Hf Hat]. apply andb_prop in Hf. destruct Hf as [Hfs Hfa].
+    apply andb_prop in Hf. destruct Hf as [Hf _]. pose proof Hat0 as Hat. apply andb_prop in Hf. destruct Hf as [Hfs Hfa].
     apply andb_prop in Hws. destruct Hws as [Hws Hwa].
     apply andb_prop in Hnc. destruct Hnc as [Hnn Hnca]. apply andb_prop in Hnn. destruct Hnn as [_ Hns].
     apply andb_prop in Hkd. destruct Hkd as [Hkd Hkx]. apply andb_prop in Hkd. destruct Hkd as [Hkd Hka].
@@ -519,6 +519,221 @@ Section FLh.
       exact Hr.
   Qed.
 
+  (* ---------- destructor calls with an arbitrary scrutinee and atomic arguments: the source
+     evaluates the arguments (lookups) first, the translation hands the destructor consumer - with the
+     arguments still as syntax - to the scrutinee ---------- *)
+  Definition atom_val (e : fenv) (y : fterm) : option fbv :=
+    match y with
+    | FLit z => Some (FbP (FvInt z))
+    | FVar v _ _ => match flookup e v with Some (FbP val) => Some (FbP val) | _ => None end
+    | _ => None
+    end.
+  Fixpoint atoms (e : fenv) (args : list fterm) : option (list fbv) :=
+    match args with
+    | [] => Some []
+    | y :: r => match atom_val e y, atoms e r with Some b, Some l => Some (b :: l) | _, _ => None end
+    end.
+
+  Lemma sim_after_step : forall cf cf' r, fstep p cf = FNext cf' -> (forall j, sim p cp j cf' r) -> forall j, sim p cp j cf r.
+  Proof. intros cf cf' r Hs H j. destruct j as [|j]; [apply sim_zero | eapply sim_fstep; [exact Hs | apply H]]. Qed.
+  Lemma sim_all_stuck : forall cf w r, fstep p cf = FHalt (OStuck w) -> forall j, sim p cp j cf r.
+  Proof. intros cf w r Hs j. destruct j as [|j]; [apply sim_zero | eapply sim_stuck; exact Hs]. Qed.
+
+  Definition plain_data_arg (y : fterm) : Prop :=
+    match y with FVar _ _ (Some FCns) => False | _ => True end /\ tkind p y = false.
+
+  Lemma atomic_src : forall e args, forallb atomic args = true -> (forall y, In y args -> plain_data_arg y) ->
+    match atoms e args with
+    | Some vals => forall f k done r j, sim p cp j (FArgs (rev_append vals done) [] e f k) r ->
+                                        sim p cp (3 * List.length args + j) (FArgs done args e f k) r
+    | None => forall f k done r j, sim p cp j (FArgs done args e f k) r
+    end.
+  Proof.
+    intros e. induction args as [|y r IH]; intros Hat Hpl.
+    - simpl. intros f k done r0 j H. exact H.
+    - simpl in Hat. apply andb_prop in Hat. destruct Hat as [Hat1 Hat2].
+      specialize (IH Hat2 (fun y0 Hy0 => Hpl y0 (or_intror Hy0))).
+      destruct (Hpl y (or_introl eq_refl)) as [Hncns Htk].
+      assert (Hstep1 : forall done f k, fstep p (FArgs done (y :: r) e f k) = FNext (FEval y e (FkArgs done r e f k))).
+      { intros done f k. apply fstep_args_eval; assumption. }
+      simpl atoms. destruct y; simpl in Hat1; try discriminate; simpl atom_val.
+      + (* variable *)
+        destruct (flookup e v) as [[val|k0]|] eqn:El.
+        * destruct (atoms e r) as [vals|].
+          -- intros f k done r0 j H.
+             replace (3 * List.length (FVar v ty chi :: r) + j)%nat with (S (S (S (3 * List.length r + j)))) by (simpl; lia).
+             eapply sim_fstep; [apply Hstep1|]. eapply sim_fstep; [simpl; rewrite El; reflexivity|].
+             eapply sim_fstep; [reflexivity|]. apply IH. exact H.
+          -- intros f k done r0 j. eapply sim_after_step; [apply Hstep1|]. intros j1.
+             eapply sim_after_step; [simpl; rewrite El; reflexivity|]. intros j2.
+             eapply sim_after_step; [reflexivity|]. intros j3. apply IH.
+        * intros f k done r0 j. eapply sim_after_step; [apply Hstep1|].
+          apply (sim_all_stuck _ "var-kind"). simpl. rewrite El. reflexivity.
+        * intros f k done r0 j. eapply sim_after_step; [apply Hstep1|].
+          apply (sim_all_stuck _ "var-unbound"). simpl. rewrite El. reflexivity.
+      + (* literal *)
+        destruct (atoms e r) as [vals|].
+        * intros f k done r0 j H.
+          replace (3 * List.length (FLit n :: r) + j)%nat with (S (S (S (3 * List.length r + j)))) by (simpl; lia).
+          eapply sim_fstep; [reflexivity|]. eapply sim_fstep; [reflexivity|].
+          eapply sim_fstep; [reflexivity|]. apply IH. exact H.
+        * intros f k done r0 j. eapply sim_after_step; [reflexivity|]. intros j1.
+          eapply sim_after_step; [reflexivity|]. intros j2.
+          eapply sim_after_step; [reflexivity|]. intros j3. apply IH.
+  Qed.
+
+  Lemma darg_plain : forall args, forallb (darg_ok p) args = true -> forall y, In y args -> plain_data_arg y.
+  Proof.
+    intros args H y Hy. rewrite forallb_forall in H. specialize (H y Hy). unfold darg_ok in H.
+    apply andb_prop in H. destruct H as [H Hdt]. apply andb_prop in H. destruct H as [Hc _]. apply negb_true_iff in Hc.
+    split.
+    - destruct y; try exact I. destruct chi as [[|]|]; try exact I. simpl in Hc. discriminate.
+    - unfold tkind, data_ty in *. destruct (fterm_type y); [|reflexivity]. simpl. apply negb_true_iff in Hdt. exact Hdt.
+  Qed.
+
+  Lemma atomic_rel : forall n G cur args st args' st' e ce vals,
+    subst_with (fun y => cmp (codata_of p) cur false y) args st = Ok (args', st') ->
+    forallb atomic args = true -> forallb (darg_ok p) args = true -> forallb (ws_arg G) args = true ->
+    erel p cp n G (Sof (fva args')) e ce -> atoms e args = Some vals ->
+    exists vals',
+      Forall2 (brel p cp n) vals vals' /\ Forall dfield vals /\
+      (forall ce', agree (cnames (fva args')) ce ce' -> forall done' tail fin,
+         rreach cp (cargs_res cp done' (args' ++ tail) ce' fin) (cargs_res cp (rev_append vals' done') tail ce' fin)).
+  Proof.
+    intros n G cur. induction args as [|y r IH]; intros st args' st' e ce vals Hs Hat Hda Hw He Hatoms.
+    - simpl in Hs. apply mret_inv in Hs. destruct Hs; subst. simpl in Hatoms. injection Hatoms as Hatoms. subst vals.
+      exists []. split; [constructor|]. split; [constructor|]. intros ce' _ done' tail fin. apply rreach_refl.
+    - apply subst_with_cons_inv in Hs. destruct Hs as [a [st1 [rest [Ha [Hrest El]]]]]. subst args'.
+      simpl in Hat, Hda, Hw. apply andb_prop in Hat. destruct Hat as [Hat1 Hat2].
+      apply andb_prop in Hda. destruct Hda as [Hda1 Hda2]. apply andb_prop in Hw. destruct Hw as [Hw1 Hw2].
+      simpl in Hatoms. destruct (atom_val e y) as [b|] eqn:Eb; [|discriminate].
+      destruct (atoms e r) as [vr|] eqn:Er; [|discriminate]. injection Hatoms as Hatoms. subst vals.
+      destruct (IH st1 rest st' e ce vr Hrest Hat2 Hda2 Hw2) as [vals' [Hrel [Hdf Hcore]]]; [|exact Er|].
+      { eapply erel_weaken; [exact He | | apply Nat.le_refl]. apply Sof_incl. intros bb Hx. apply fva_cons. right. exact Hx. }
+      assert (Hpl : plain_data_arg y) by (apply (darg_plain [y]); [simpl; rewrite Hda1; reflexivity | left; reflexivity]).
+      destruct Hpl as [Hncns Htk].
+      apply compile_arg_inv in Ha. destruct Ha as [[v [ty [ty0 [Ey _]]]]|[_ [ty0 [c [Ety [Ec Ea]]]]]].
+      { subst y. contradiction. }
+      subst a.
+      destruct y; simpl in Hat1; try discriminate.
+      + (* a variable *)
+        rewrite cmp_unfold in Ec. apply cmp_var_inv in Ec. destruct Ec as [ty1 [Ety1 [Ec Est]]]. subst c st1 ty.
+        assert (Hwv : ws G (FVar v (Some ty1) chi) = true).
+        { destruct chi as [[|]|]; try exact Hw1. contradiction. }
+        simpl in Hwv. apply var_ok_inv in Hwv. destruct Hwv as [ty2 [E2 Hg]]. injection E2 as E2. subst ty2.
+        destruct (erel_var p cp n G _ e ce v _ He Hg) as [val [pv [Elk [Eclk [Hv Hd]]]]].
+        { apply (Sof_in (mkcb (new_id v) CPrd (compile_ty ty1))). apply fva_cons. left. apply fvt_var. reflexivity. }
+        unfold tkind in Htk. simpl in Htk. rewrite (is_codata_compile p cp Hcod), Htk in Hd. simpl in Hd.
+        simpl in Eb. rewrite Elk in Eb. injection Eb as Eb. subst b.
+        exists (BP pv :: vals'). split; [constructor; [exact Hv | exact Hrel]|].
+        split; [constructor; [exact Hd | exact Hdf]|].
+        intros ce' Hag done' tail fin. simpl app. unfold cargs_res at 1. apply rreach_step.
+        simpl. rewrite (Hag (new_id v)); [|apply (in_cnames (mkcb (new_id v) CPrd (compile_ty ty1))); apply fva_cons; left; apply fvt_var; reflexivity].
+        rewrite Eclk. apply rreach_step. rewrite cstep_app_margs.
+        apply Hcore. intros z Hz. apply Hag. apply in_cnames_inv in Hz. destruct Hz as [bb [Hbb E]]. subst z.
+        apply in_cnames. apply fva_cons. right. exact Hbb.
+      + (* a literal *)
+        rewrite cmp_unfold in Ec. unfold cmp_lit in Ec. apply mret_inv in Ec. destruct Ec; subst c st1.
+        simpl in Eb. injection Eb as Eb. subst b.
+        exists (BP (PInt n0) :: vals'). split; [constructor; [reflexivity | exact Hrel]|].
+        split; [constructor; [exact I | exact Hdf]|].
+        intros ce' Hag done' tail fin. simpl app. unfold cargs_res at 1. apply rreach_step.
+        simpl. apply rreach_step. rewrite cstep_app_margs.
+        apply Hcore. intros z Hz. apply Hag. apply in_cnames_inv in Hz. destruct Hz as [bb [Hbb E]]. subst z.
+        apply in_cnames. apply fva_cons. right. exact Hbb.
+  Qed.
+
+  Lemma fl_dtor_general : forall N scrut x targs args ty, forallb atomic args = true ->
+    flw p cp N scrut ->
+    flw p cp N (FDtor scrut x targs args ty).
+  Proof.
+    intros N scrut x targs args ty Hatom Hscrut.
+    intros n Hn G cur cont st s st' e ce k Hwc Hf Hkd Hws Hnc Hl HG Hbn Hni H8 Hsh He HCK.
+    rewrite wc_unfold in Hwc. apply wc_dtor_inv in Hwc.
+    destruct Hwc as [args' [st1 [sty0 [Hargs [Esty Hwscrut]]]]].
+    simpl in Hf, Hkd, Hws, Hnc.
+    apply andb_prop in Hf. destruct Hf as [Hf _]. apply andb_prop in Hf. destruct Hf as [Hfs Hfa].
+    apply andb_prop in Hws. destruct Hws as [Hws Hwa].
+    apply andb_prop in Hnc. destruct Hnc as [Hnn Hnca]. apply andb_prop in Hnn. destruct Hnn as [Hdisj Hns].
+    apply andb_prop in Hkd. destruct Hkd as [Hkd Hkx]. apply andb_prop in Hkd. destruct Hkd as [Hkd Hka].
+    apply andb_prop in Hkd. destruct Hkd as [Hks Hkscrut]. apply Bool.eqb_prop in Hkx.
+    assert (Hkind : tkind p (FDtor scrut x targs args ty) = dkind p x) by (unfold tkind; simpl; exact Hkx).
+    rewrite Hkind in *.
+    set (dcont := CXtor CCns (new_id x) (args' ++ [CConsumer cont]) (compile_ty sty0)) in *.
+    assert (Hg1 : grows st st1).
+    { revert Hargs. apply mgrows_subst_with. apply Forall_forall. intros a0 _ ty1.
+      apply (proj2 (wc_cmp_grows (codata_of p) cur false a0)). }
+    destruct (darg_arg_ok p args Hfa) as [Hfa' _].
+    assert (HAub : Forall (ubc p cur) args) by (apply Forall_forall; intros a0 _; apply (ub_cmp p cur)).
+    (* where the free bindings of the destructor consumer come from *)
+    assert (Hsrc : forall bb, In bb (fvt dcont) -> inG G (flat_map nm args) bb \/ In bb (fvt cont)).
+    { intros bb Hbb. apply fvt_xtor in Hbb. apply fva_app in Hbb. destruct Hbb as [Hbb|Hbb].
+      - left. eapply (ub_args p cur G args HAub); eauto.
+      - right. apply fva_cons in Hbb. destruct Hbb as [Hbb|Hbb]; [exact Hbb | apply fva_nil in Hbb; contradiction]. }
+    destruct n as [|n1]; [apply sim_zero|].
+    eapply sim_fstep; [reflexivity|].
+    pose proof (atomic_src e args Hatom (darg_plain args Hfa)) as Hsrcargs.
+    destruct (atoms e args) as [vals|] eqn:Eatoms; [|apply Hsrcargs].
+    eapply sim_mono; [apply (Hsrcargs (AfDtor scrut x) k [] _ n1)|lia].
+    destruct n1 as [|n2]; [apply sim_zero|].
+    eapply sim_fstep; [simpl; rewrite rev_append_nil_twice; reflexivity|].
+    apply (Hscrut n2 ltac:(lia) G cur dcont st1 s st' e ce (FkDtor x vals k) Hwscrut Hfs Hks Hws Hns Hl).
+    - eapply Gused_grows; eauto.
+    - eapply incl_grows; [|exact Hg1]. intros z Hz. apply Hbn. simpl. apply in_or_app. left. exact Hz.
+    - intros z Hz. apply in_cnames_inv in Hz. destruct Hz as [bb [Hbb E]]. subst z.
+      destruct (Hsrc bb Hbb) as [Hg|Hc].
+      + destruct (inG_used G _ bb st HG Hg) as [y [Ey Hy]]. exists y. split; [exact Ey|]. eapply grows_vars_incl; eauto.
+      + eapply names_in_grows; [exact Hni | exact Hg1 | apply in_cnames; exact Hc].
+    - intros z Hz Hin. apply in_cnames_inv in Hin. destruct Hin as [bb [Hbb E]].
+      destruct (Hsrc bb Hbb) as [Hg|Hc].
+      + destruct (inG_name _ _ _ Hg) as [y [Ey Hy]]. rewrite E in Ey. apply new_id_inj in Ey. subst y.
+        exact (disj_spec _ _ Hdisj z Hz Hy).
+      + apply (H8 z); [simpl; apply in_or_app; left; exact Hz|]. rewrite <- E. apply in_cnames. exact Hc.
+    - rewrite Hkscrut. reflexivity.
+    - eapply erel_weaken; [exact He | | lia]. intros z Hz. exact Hz.
+    - rewrite Hkscrut. split.
+      + intros bb Hbb Hs. destruct (Hsrc bb Hbb) as [[Hg _]|Hc].
+        * eapply erel_kind; eauto.
+        * apply (proj1 HCK); assumption.
+      + intros Hall.
+        assert (He_args : erel p cp n2 G (Sof (fva args')) e ce).
+        { eapply erel_weaken; [exact He | | lia]. intros z Hz. apply Hall. unfold Sof in Hz.
+          apply in_cnames_inv in Hz. destruct Hz as [bb [Hbb E]]. subst z. apply in_cnames. apply fvt_xtor. apply fva_app. left. exact Hbb. }
+        destruct (atomic_rel n2 G cur args st args' st1 e ce vals Hargs Hatom Hfa Hwa He_args Eatoms) as [vals' [Hrel [Hdf Hcore]]].
+        assert (HKS : KS p cp (S (S n2)) (dkind p x) k cont ce).
+        { eapply CK_KS; [exact HCK|]. intros bb Hbb. apply Hall. apply in_cnames. apply fvt_xtor. apply fva_app. right.
+          apply fva_cons. left. exact Hbb. }
+        unfold dcont. simpl. intros ce' Hag m.
+        assert (Hag_args : agree (cnames (fva args')) ce ce').
+        { intros z Hz. apply Hag. apply in_cnames_inv in Hz. destruct Hz as [bb [Hbb E]]. subst z.
+          apply in_cnames. apply fvt_xtor. apply fva_app. left. exact Hbb. }
+        assert (Hag_cont : agree (cnames (fvt cont)) ce ce').
+        { intros z Hz. apply Hag. apply in_cnames_inv in Hz. destruct Hz as [bb [Hbb E]]. subst z.
+          apply in_cnames. apply fvt_xtor. apply fva_app. right. apply fva_cons. left. exact Hbb. }
+        destruct (KS_arg p cp _ _ _ _ ce' (MArgs (rev_append vals' []) [] ce' (FinXtorK (new_id x) m)) Hsh
+                    (KS_agree p cp _ _ _ _ _ _ Hsh HKS Hag_cont)) as [kv0 [Hreach Hkk]].
+        exists (KDtor (new_id x) (vals' ++ [BK kv0])). split.
+        * rewrite start_args_eq.
+          eapply rreach_trans; [apply (Hcore ce' Hag_args [] [CConsumer cont])|].
+          unfold cargs_res at 1. apply rreach_step.
+          eapply rreach_trans; [exact Hreach|]. apply rreach_step. rewrite cstep_app_margs. unfold cargs_res. simpl finish_args.
+          change (rev_append (BK kv0 :: rev_append vals' []) []) with (rev_append (rev_append vals' []) [BK kv0]).
+          rewrite rev_append_twice_app. apply rreach_refl.
+        * apply Kk_dtor; [exact Hrel | exact Hdf | eapply Kk_mono; [exact Hkk | lia]].
+  Qed.
+
+  Lemma fl_dtor : forall N scrut x targs args ty,
+    flw p cp N scrut -> flt p cp N scrut -> Forall (flc p cp N) args -> Forall (flt p cp N) args ->
+    flw p cp N (FDtor scrut x targs args ty).
+  Proof.
+    intros N scrut x targs args ty Hw HTs HA HT.
+    intros n Hn G cur cont st s st' e ce k Hwc Hf.
+    pose proof Hf as Hf0. simpl in Hf0. apply andb_prop in Hf0. destruct Hf0 as [_ Hor]. apply orb_prop in Hor.
+    destruct Hor as [Hat|Hat].
+    - eapply (fl_dtor_atomic N scrut x targs args ty Hat HTs HA HT); eauto.
+    - eapply (fl_dtor_general N scrut x targs args ty Hat Hw); eauto.
+  Qed.
+
   (* ---------- assembly: every term, every fuel bound ---------- *)
   Theorem fl_all : forall N t, flw p cp N t /\ flc p cp N t /\ flt p cp N t.
   Proof.
@@ -576,7 +791,7 @@ Section FLh.
       destruct (fl_ctor N x args ty HA HT) as [Hw Hc]. split; [exact Hw|]. split; [exact Hc|].
       apply Hnotflt. intros Hkd Hk. simpl in Hkd. apply andb_prop in Hkd. destruct Hkd as [_ Hkty].
       unfold tkind in Hk. simpl in Hk. rewrite Hk in Hkty. discriminate.
-    - destruct IHt as [_ [_ Ts]].
+    - destruct IHt as [Wsc [_ Ts]].
       assert (HA : Forall (flc p cp N) args) by (eapply Forall_impl; [|exact H]; intros a [_ [Ha _]]; exact Ha).
       assert (HT : Forall (flt p cp N) args) by (eapply Forall_impl; [|exact H]; intros a [_ [_ Ha]]; exact Ha).
       eapply (Hdef _ (fun cur => wc_dtor (wc (codata_of p) cur false t) (fterm_type t) x (subst_with (fun y => cmp (codata_of p) cur false y) args))).
